@@ -206,7 +206,8 @@ def run_sweep(case, res):
                                    empty_frac=0.2, max_rings=4, length=0.3,
                                    vel_range=(0.2, 5.0))
     else:
-        P, feats = wl.single_assembly(rng, max_rings=5, length=0.3,
+        P, feats = wl.single_assembly(rng, coolant_pool=True,
+                                      max_rings=5, length=0.3,
                                       vel=wl.loguniform(rng, 0.05, 6.0))
     key = {'gap': P['gap_model'], 'tdep': feats['tdep']}
     nt = [0]
